@@ -1,7 +1,7 @@
 (* C07 — Every string that is not a valid RFC 9535 query is rejected.  Statements only.
    The whole-language statement is kept visible and is NOT proved (partial): *)
 From Coq Require Import List NArith ZArith Bool.
-From JP Require Import Base Ast Peg Dec2Bin Known Build Concrete BuildFacts.
+From JP Require Import Base Ast Peg Dec2Bin Known Build Concrete BuildFacts RejectFacts.
 From JP.gen Require Import Grammar.
 Import ListNotations.
 
@@ -30,6 +30,21 @@ Proof. intros H. unfold parse_model. rewrite H. reflexivity. Qed.
 Theorem C07_blank_ends_rejected : forall fuel s,
   str_eqb s (trim_blank s) = false -> parse_model fuel s = PErr.
 Proof. exact blank_ends_rejected. Qed.
+
+(* whole classes of strings outside the language are rejected, through the generated grammar run
+   by the PEG interpreter (RejectFacts.v; the proofs execute the grammar of this run):
+   every string that does not begin with the root identifier $ ... *)
+Theorem C07_no_root_rejected : forall s,
+  match s with c :: _ => c <> 36%N | [] => True end -> parse_query s = PErr.
+Proof. exact no_root_rejected. Qed.
+Print Assumptions C07_no_root_rejected.
+(* ... and every string in which $ is followed by a character that is neither '.', '[' nor blank
+   space (whatever comes after it) *)
+Theorem C07_bad_continuation_rejected : forall c rest,
+  c <> 46%N -> c <> 91%N -> c <> 32%N -> c <> 9%N -> c <> 10%N -> c <> 13%N ->
+  parse_query (36%N :: c :: rest) = PErr.
+Proof. exact bad_continuation_rejected. Qed.
+Print Assumptions C07_bad_continuation_rejected.
 
 (* near-misses, evaluated inside Coq on the grammar of this run (a test, not the unbounded claim) *)
 Definition rejected (s : str) : bool := match parse_query s with PErr => true | _ => false end.
